@@ -6,6 +6,7 @@ package tree
 
 import (
 	"bytes"
+	"cmp"
 	_ "embed"
 	"fmt"
 	"go/parser"
@@ -649,8 +650,13 @@ func (t *Tree) Compile(file string, args []string, out io.Writer) (err error) {
 			}
 		}
 	}
-	/* sort imports to satisfy gofmt */
-	slices.Sort(t.Imports)
+	/* sort imports by path, then alias, and drop duplicates to satisfy gofmt */
+	slices.SortFunc(t.Imports, func(a, b string) int {
+		pathA, aliasA, _ := strings.Cut(a, "=")
+		pathB, aliasB, _ := strings.Cut(b, "=")
+		return cmp.Or(strings.Compare(pathA, pathB), strings.Compare(aliasA, aliasB))
+	})
+	t.Imports = slices.Compact(t.Imports)
 
 	/* second pass */
 	for _, n := range slices.Collect(t.Iterator()) {
